@@ -51,6 +51,8 @@ func propC20(p *Prog, r *Report) {
 	c20Precedence(p, r)
 	c20Table(p, r)
 	c20Valid(p, r)
+	r.Rule("C20.d", "the defaults are never written through: no slice or map setting is modified in place (ParseConfig works on a copy that shares their storage)")
+	c20DefaultsNotWrittenThrough(p, r, "C20.d")
 }
 
 func c20Precedence(p *Prog, r *Report) {
